@@ -1,10 +1,12 @@
 #!/usr/bin/env bash
-# usage: tools/seed_queue.sh C06 C09 ...   (sequential; results appended to /tmp/seedres-all.txt)
-for P in "$@"; do
+# usage: tools/seed_queue.sh C06[:C06,C11] C09 ...   (sequential; results appended to /tmp/seedres-all.txt)
+# each argument is <seed property>[:<comma separated checks to run>] (default: the seed's own property)
+for A in "$@"; do
+  P="${A%%:*}"; C="${A#*:}"; [ "$C" = "$A" ] && C="$P"
   for s in a b; do
     d=/tmp/seed-$P/_seed/$s
     [ -f "$d/patch.diff" ] || { echo "RESULT $P-$s: no patch" >> /tmp/seedres-all.txt; continue; }
-    "$(dirname "$0")/verify_seed.sh" "$d" "$P" "$P-$s" >> /tmp/seedres-all.txt 2>&1
+    "$(dirname "$0")/verify_seed.sh" "$d" "$C" "$P-$s" >> /tmp/seedres-all.txt 2>&1
   done
 done
 echo "QUEUE-DONE $*" >> /tmp/seedres-all.txt
